@@ -407,6 +407,20 @@ fn prog_cases(tier: &str) -> Vec<Value> {
         }
     }
     flush("peek-poke", &mut lines, &mut expect, &mut labels, &mut cases);
+    // the value POKEd is the variable itself (or depends on it): the byte written stays written
+    {
+        let mut l: Vec<String> = vec![];
+        let mut e: Vec<String> = vec![];
+        for &a in &[3i32, 200, 18, 1] {
+            l.push(format!("W% = {a}: POKE VARPTR(W%) + 1, W%: PRINT W%", a = a));
+            e.push(fmt_num(i16::from_le_bytes([a as u8, a as u8]) as i64));
+            l.push(format!("W% = {a}: POKE VARPTR(W%), W% + 1: PRINT W%", a = a));
+            e.push(fmt_num(i16::from_le_bytes([(a + 1) as u8, 0]) as i64));
+            l.push(format!("W% = {a}: V% = 4: POKE VARPTR(V%) + W% - W%, W%: PRINT V%; W%", a = a));
+            e.push(format!("{}{}", fmt_num(a as i64), fmt_num(a as i64)));
+        }
+        cases.push(json!({"k": "prog", "what": "peek-poke-neighbours", "text": l.join("\n") + "\n", "expect": e.join("\r\n") + "\r\n", "labels": ["POKE with the variable itself as the value"], "n": l.len()}));
+    }
     // two INTEGER variables side by side behind a string: after the string has grown or shrunk by 1 .. 4 bytes one of
     // them stands where the other one stood when it was last read; each PEEK must still read the variable it names
     for &a in &[4660, -2, 255, 256] {
